@@ -253,12 +253,67 @@ def enum_histories(seed):
             "cases": cases, "failures": fails}
 
 
+def enum_real_depsets(seed):
+    """the same histories on real dependency sets (plain conditionals, USE-dependencies with and without (+)/(-) defaults in every form),
+    evaluated by the evaluator the configured repository uses (DepSet.evaluate_depset): after every step each wrapped attribute must
+    read as the raw attribute evaluated under the current USE set"""
+    import random
+    from snakeoil import klass
+    from pkgcore.ebuild.atom import atom
+    from pkgcore.ebuild.conditionals import DepSet
+    from pkgcore.package.conditionals import make_wrapper
+    rnd = random.Random(seed + 1414)
+    FLAGS = ("x", "y", "st", "s2", "s3", "z")
+
+    class Raw:
+        depend = DepSet.parse("x? ( a/b ) a/c[st(+)?] y? ( a/d[s2(-)=] !z? ( a/e ) ) a/f[!s3(-)?] a/g[z?]", atom)
+        rdepend = DepSet.parse("a/h[st(+)=,!s2(-)=] y? ( a/i )", atom)
+        pdepend = DepSet.parse("|| ( x? ( a/j ) a/k[s3(+)] ) !y? ( a/l[x(-)?] )", atom)
+        plain = ("p",)
+    ev = klass.alias_method("evaluate_depset")
+    W = make_wrapper(None, "use", attributes_to_wrap={"depend": ev, "rdepend": ev, "pdepend": ev})
+    cases, fails = 0, []
+    ops = ["read"] + [f"en {f}" for f in FLAGS] + [f"dis {f}" for f in FLAGS] + ["rb", "rb", "commit", "en st s2", "dis x y"]
+    for trial in range(500):
+        w = W(Raw(), initial_settings=rnd.sample(FLAGS, rnd.randint(0, 4)), unchangable_settings=["locked"])
+        marks = [w.changes_count()]
+        hist = []
+        for _ in range(rnd.randint(2, 8)):
+            op = rnd.choice(ops)
+            kind, *flags = op.split()
+            # requests that change nothing (enabling a set flag, disabling an unset one) are left out: snakeoil's change set
+            # mishandles their rollback (KF-C14-1, exercised by the first enumeration)
+            if kind == "en" and any(f in w.use for f in flags) or kind == "dis" and any(f not in w.use for f in flags):
+                continue
+            hist.append(op)
+            if op == "rb":
+                pt = rnd.choice([m for m in marks if m <= w.changes_count()])
+                w.rollback(pt)
+                marks = [m for m in marks if m <= pt]
+            elif op == "commit":
+                w.commit()
+                marks = [w.changes_count()]
+            elif op != "read":
+                (w.request_enable if kind == "en" else w.request_disable)("use", *flags)
+                marks.append(w.changes_count())
+            for attr in (("depend", "rdepend", "pdepend") if rnd.random() < .7 else ("rdepend",)):
+                cases += 1
+                got, want = str(getattr(w, attr)), str(getattr(Raw, attr).evaluate_depset(w.use))
+                if got != want and len(fails) < 4:
+                    fails.append({"model": {"history": list(hist), "attribute": attr, "use": sorted(w.use)},
+                                  "detail": f"history {hist}: {attr} reads {got!r} but the raw attribute under USE {sorted(w.use)} is {want!r}"})
+    return {"name": "C14.real_depsets.bounded_enumeration", "bound": "500 random histories of <= 8 enable/disable/rollback/commit/read steps over 6 flags on three real dependency sets "
+            "(plain conditionals, [f?] [f=] [!f?] [!f=] with and without (+)/(-) defaults, ||), attributes read after every step (sometimes only one of them, so that stale entries survive)",
+            "cases": cases, "failures": fails}
+
+
 def tasks():
     fns = [(FILE, f"{WRAPPER}.{n}") for n in ("request_enable", "request_disable", "rollback", "commit")] + [(FILE, "_getattr_wrapped")]
     return [
         Task("C14._getattr_wrapped", t_getattr, fns[-1:]),
         Task("C14.requests", t_request, fns[:2], enumerate=enum_histories),
         Task("C14.rollback_commit", t_rollback_commit, fns[2:4]),
+        Task("C14.real_depsets", None, fns, enumerate=enum_real_depsets),
     ]
 
 
